@@ -44,8 +44,10 @@ func (tokenMod) scratch(x *X) *tokenScratch {
 func (tokenMod) Name() string   { return "token" }
 func (tokenMod) Deps() []string { return nil }
 
-var tokSymbols = []string{"kitty", "abc", "btcx", "zeta", "mno"}
-var tokMinUnits = []string{"ukitty", "uabc", "sat", "uzeta", "mmm"}
+// the last two entries of each list form the CLASH universe: the string "ufoo" is a symbol (of ufoo/ufoomin) AND a
+// min unit (of foo/ufoo) — names shared across the two namespaces, issued in both orders
+var tokSymbols = []string{"kitty", "abc", "btcx", "zeta", "mno", "ufoo", "foo"}
+var tokMinUnits = []string{"ukitty", "uabc", "sat", "uzeta", "mmm", "ufoomin", "ufoo"}
 var tokNames = []string{"Kitty Token", "A", "a name of exactly thirty-two ch.", "Z"}
 
 func rankIn(universe []string, extra string, v string) int64 {
@@ -94,6 +96,20 @@ func (tokenMod) Gen(r *lib.Rand, tier string) []Step {
 	}
 	var out []Step
 	k := 0
+	if r.Chance(1, 3) {
+		// clash universe: token A's symbol = token B's min unit, in either issue order, around a third token
+		a := Step{M: "token", Op: "issue", A: []int64{int64(r.Intn(3)), 5, 5, int64(r.Intn(7)), int64(1 + r.Intn(1000)), int64(2000 + r.Intn(1000)), 1, 0}}
+		b := Step{M: "token", Op: "issue", A: []int64{int64(r.Intn(3)), 6, 6, int64(r.Intn(7)), int64(1 + r.Intn(1000)), int64(2000 + r.Intn(1000)), 1, 1}}
+		c := Step{M: "token", Op: "issue", A: []int64{int64(r.Intn(3)), int64(r.Intn(5)), int64(r.Intn(5)), 6, 10, 100, 1, 2}}
+		switch r.Intn(3) {
+		case 0:
+			out = append(out, a, b, c)
+		case 1:
+			out = append(out, b, c, a)
+		default:
+			out = append(out, c, a, b)
+		}
+	}
 	for i := 0; i < n; i++ {
 		w := r.Weighted(4, 2, 3, 3, 2, 1)
 		if i < 2 {
@@ -101,13 +117,13 @@ func (tokenMod) Gen(r *lib.Rand, tier string) []Step {
 		}
 		switch w {
 		case 0:
-			si, mi := int64(k%len(tokSymbols)), int64(k%len(tokSymbols))
+			si, mi := int64(k%5), int64(k%5)
 			k++
 			if r.Chance(1, 6) {
-				si = int64(r.Intn(len(tokSymbols))) // may clash
+				si = int64(r.Intn(5)) // may clash
 			}
 			if r.Chance(1, 6) {
-				mi = int64(r.Intn(len(tokMinUnits)))
+				mi = int64(r.Intn(5))
 			}
 			initial := int64(1 + r.Intn(1000000))
 			if r.Chance(1, 8) {
@@ -263,6 +279,9 @@ func (m tokenMod) State(x *X, c *Chain) string {
 		}
 		// the gRPC query by symbol and by min unit must show the stored token
 		for _, d := range []string{t.Symbol, t.MinUnit} {
+			if d == t.MinUnit && d != t.Symbol && c.Token.HasSymbol(c.Ctx, d) {
+				continue // GetToken looks a name up as a symbol first: another token's symbol shadows this min unit
+			}
 			if q, err := c.Token.GetToken(c.Ctx, d); err != nil || q.GetSymbol() != t.Symbol {
 				x.Notes = append(x.Notes, "token "+d+": GetToken disagrees with the store")
 			}
